@@ -127,6 +127,12 @@ COMBINATORS = {
     "std::result::Result::<T, E>::unwrap_or_else": ("res", "Err", "val", "direct", "payload"),
     "std::result::Result::<T, E>::is_ok_and": ("res", "Ok", "val", "direct", "false"),
     "std::result::Result::<T, E>::is_err_and": ("res", "Err", "val", "direct", "false"),
+    # three-argument form: (scrutinee, default, closure)
+    "std::option::Option::<T>::map_or": ("opt", "Some", "val", "direct", "default"),
+    "std::result::Result::<T, E>::map_or": ("res", "Ok", "val", "direct", "default"),
+    # no closure: (scrutinee, default)
+    "std::option::Option::<T>::unwrap_or": ("opt", "None", "dflt", "default", "payload"),
+    "std::result::Result::<T, E>::unwrap_or": ("res", "Err", "dflt", "default", "payload"),
 }
 ADT = {"opt": ("std::option::Option", ["None", "Some"]), "res": ("std::result::Result", ["Ok", "Err"])}
 
@@ -137,20 +143,27 @@ def _expand_combinator(prog, t, locals_, blocks, b, file_):
     (the closure-call block among them) or None if the call is not an expandable combinator."""
     fj = t["f"]
     spec = COMBINATORS.get(fj.get("path"))
-    if spec is None or len(t["args"]) != 2 or t.get("t") is None:
-        return None
-    scr, clo = t["args"]
-    if clo.get("k") not in ("copy", "move") or clo["p"]:
-        return None
-    cty = locals_[clo["l"]]
-    g = prog.by_key.get(cty.get("key")) if cty.get("k") == "closure" else None
-    if g is None or not g.blocks:
+    if spec is None or t.get("t") is None:
         return None
     adt, run_variant, passing, cbranch, obranch = spec
+    want_args = 3 if obranch == "default" else 2
+    if len(t["args"]) != want_args:
+        return None
+    scr = t["args"][0]
+    dflt = t["args"][1] if (obranch == "default" or passing == "dflt") else None
+    clo = None if passing == "dflt" else t["args"][-1]
+    g = None
+    if clo is not None:
+        if clo.get("k") not in ("copy", "move") or clo["p"]:
+            return None
+        cty = locals_[clo["l"]]
+        g = prog.by_key.get(cty.get("key")) if cty.get("k") == "closure" else None
+        if g is None or not g.blocks:
+            return None
     path, variants = ADT[adt]
     other_variant = [v for v in variants if v != run_variant][0]
     want_argc = 1 if passing == "nil" else 2
-    if g.argc != want_argc:
+    if g is not None and g.argc != want_argc:
         return None
     ln = t.get("ln")
     dest, target, unwind = t["dest"], t["t"], t.get("unwind")
@@ -182,9 +195,12 @@ def _expand_combinator(prog, t, locals_, blocks, b, file_):
     s_l = nl(scr_ty)
     d_l = nl({"t": "isize", "k": "prim"})
     # closure receiver: by value, or by reference if the body takes `&self` / `&mut self`
-    recv_ty = g.locals[1]
+    recv_ty = g.locals[1] if g is not None else {"t": "?"}
     pre = []
-    if recv_ty.get("t", "").startswith("&"):
+    recv = None
+    if g is None:
+        pass
+    elif recv_ty.get("t", "").startswith("&"):
         r_l = nl(recv_ty)
         pre.append(assign(pl(r_l), {"k": "ref", "mut": recv_ty["t"].startswith("&mut"), "place": pl(clo["l"])}))
         recv = {"k": "move", "l": r_l, "p": []}
@@ -200,13 +216,17 @@ def _expand_combinator(prog, t, locals_, blocks, b, file_):
         o_st = [assign(copy.deepcopy(dest), {"k": "use", "x": payload(s_l, other_variant)})]
     elif obranch == "false":
         o_st = [assign(copy.deepcopy(dest), {"k": "use", "x": {"k": "const", "ty": "bool", "v": 0}})]
+    elif obranch == "default":
+        o_st = [assign(copy.deepcopy(dest), {"k": "use", "x": copy.deepcopy(dflt)})]
     else:   # same
         o_st = [assign(copy.deepcopy(dest), {"k": "use", "x": {"k": "move", "l": s_l, "p": []}})]
     b_other = nb(o_st, {"k": "goto", "t": target})
     # --- the branch that runs the closure
     args = [recv]
     c_st = list(pre)
-    if passing == "val":
+    if g is None:
+        pass
+    elif passing == "val":
         a_l = nl(g.locals[2])
         c_st.append(assign(pl(a_l), {"k": "use", "x": payload(s_l, run_variant)}))
         args.append({"k": "move", "l": a_l, "p": []})
@@ -214,8 +234,10 @@ def _expand_combinator(prog, t, locals_, blocks, b, file_):
         a_l = nl(g.locals[2])
         c_st.append(assign(pl(a_l), {"k": "ref", "mut": False, "place": pl(s_l, [{"variant": run_variant, "vi": variants.index(run_variant)}, {"f": 0, "n": "0"}])}))
         args.append({"k": "move", "l": a_l, "p": []})
-    callee = {"key": g.key, "local": True, "path": g.path, "full": g.path, "name": "{closure}", "closure_call": True}
-    if cbranch == "direct":
+    callee = {"key": g.key, "local": True, "path": g.path, "full": g.path, "name": "{closure}", "closure_call": True} if g is not None else None
+    if cbranch == "default":
+        b_call = nb([assign(copy.deepcopy(dest), {"k": "use", "x": copy.deepcopy(dflt)})], {"k": "goto", "t": target})
+    elif cbranch == "direct":
         b_call = nb(c_st, {"k": "call", "f": callee, "args": args, "dest": copy.deepcopy(dest), "t": target, "unwind": unwind, "ln": ln})
     elif cbranch.startswith("wrap:"):
         _, k_, v_ = cbranch.split(":")
@@ -238,8 +260,14 @@ def _expand_combinator(prog, t, locals_, blocks, b, file_):
     return new
 
 
-def inline(prog, f, pick=None, keep=(), depth=MAX_DEPTH, cross=None):
-    """Return an inlined view of `f` (a fresh core.Fn; `f` itself if nothing was inlined)."""
+VALUE_COMBINATORS = ("std::option::Option::<T>::unwrap_or", "std::result::Result::<T, E>::unwrap_or",
+                     "std::option::Option::<T>::map_or", "std::result::Result::<T, E>::map_or")
+
+
+def inline(prog, f, pick=None, keep=(), depth=MAX_DEPTH, cross=None, value_combinators=False):
+    """Return an inlined view of `f` (a fresh core.Fn; `f` itself if nothing was inlined).
+    Combinators taking a closure are always expanded; the closure-less value selectors
+    (`unwrap_or`, `map_or`) only on request - most rules prefer to see through them as adapters."""
     if pick is None:
         pick = default_pick(prog, f, keep, cross)
     j = f.j
@@ -258,7 +286,7 @@ def inline(prog, f, pick=None, keep=(), depth=MAX_DEPTH, cross=None):
         if t["k"] != "call" or len(blocks) > MAX_BLOCKS:
             continue
         fj = t["f"]
-        if fj.get("path") in COMBINATORS and len(stack_of[b]) <= depth:
+        if fj.get("path") in COMBINATORS and len(stack_of[b]) <= depth and (value_combinators or fj.get("path") not in VALUE_COMBINATORS):
             newb = _expand_combinator(prog, t, locals_, blocks, b, blocks[b].get("file", f.file))
             if newb:
                 for nb_ in newb:
